@@ -434,3 +434,29 @@ Example all_recvd_depends_on_order :
   map (fun e => recvd (snd e)) (vfinal [] [AddTc h; rp 1; rp 7; rp 3]) = [0] /\
   map (fun e => (acc (snd e), sta (snd e), comp (snd e))) (vfinal [] [AddTc h; rp 1; rp 7; rp 3]) = [(1, 1, 1)].
 Proof. vm_compute. repeat split. Qed.
+
+(* ================= the dictionary key is the request id's 32-bit value ================= *)
+From SP Require Import Base.BytesFacts Spec.SpacePacketSpec Proofs.SpacePacketProofs.
+
+(* ccsds version (3 bits) | packet id (13 bits) | sequence control (16 bits) *)
+Theorem key_of_hdr_arith h : sph_valid h ->
+  key_of_hdr h = sph_word0 h * 65536 + sph_word1 h /\ 0 <= key_of_hdr h < 2 ^ 32.
+Proof.
+  intros V. unfold key_of_hdr, reqid_as_u32, reqid_from_sp_header. cbn [r_ver r_pid r_psc].
+  rewrite pid_raw_word0, psc_raw_word1 by assumption.
+  rewrite shiftl_mul by lia.
+  assert (R0 : 0 <= sph_word0 h < 65536) by (unfold sph_word0, sph_valid in *; lia).
+  assert (R1 : 0 <= sph_word1 h < 65536) by (unfold sph_word1, sph_valid in *; lia).
+  rewrite (lor_disjoint _ _ 16); [change (2 ^ 16) with 65536; lia|lia| |assumption].
+  change (2 ^ 16) with 65536. apply Z_mod_mult.
+Qed.
+
+(* distinct telecommands (version, packet id, sequence control) never share a key *)
+Theorem key_of_hdr_inj h1 h2 : sph_valid h1 -> sph_valid h2 -> key_of_hdr h1 = key_of_hdr h2 ->
+  ver h1 = ver h2 /\ ptype h1 = ptype h2 /\ shf h1 = shf h2 /\ apid h1 = apid h2 /\
+  sflags h1 = sflags h2 /\ scount h1 = scount h2.
+Proof.
+  intros V1 V2 E.
+  destruct (key_of_hdr_arith h1 V1) as [E1 _], (key_of_hdr_arith h2 V2) as [E2 _].
+  rewrite E1, E2 in E. unfold sph_word0, sph_word1, sph_valid in *. lia.
+Qed.
